@@ -627,7 +627,10 @@ def check_ground(ctx, stream, big):
             try:
                 E, psi = st.jw_get_ground_state_at_particle_number(S, k)
             except Exception as e:  # noqa: BLE001
-                stream.violate('jw_get_ground_state_at_particle_number raised %s' % errname(e), case, {})
+                sub = D[numpy.ix_(sector, sector)]
+                stream.violate('jw_get_ground_state_at_particle_number raised %s' % errname(e), case,
+                               {'error': type(e).__name__, 'sector_size': len(sector),
+                                'operator_vanishes_on_sector': bool(numpy.all(sub == 0))})
                 continue
             emin = float(numpy.linalg.eigvalsh(D[numpy.ix_(sector, sector)])[0])
             stream.float_comparisons += 3
@@ -647,10 +650,25 @@ def check_ground(ctx, stream, big):
 # ------------------------------------------------------------------ entry points
 
 def classify(v):
+    d = v.get('detail', {})
+    if v.get('what', '').startswith('jw_get_ground_state_at_particle_number raised') and d.get('error') == 'ArpackError' \
+            and d.get('operator_vanishes_on_sector') and d.get('sector_size', 0) >= 3:
+        return 'C10-ground-state-zero-sector'
     return None
 
 
 def probe_known(ctx, k):
+    """replay the witness of a listed finding on the real code: True while it still fails"""
+    of = ctx.of
+    if k['id'] == 'C10-ground-state-zero-sector':
+        from openfermion.linalg import sparse_tools as st
+        try:
+            H = of.FermionOperator('2 1^ 3^ 0', -2.0)
+            H = H + of.hermitian_conjugated(H)
+            E, psi = st.jw_get_ground_state_at_particle_number(of.get_sparse_operator(H, 4), 1)
+            return abs(E) > 1e-9
+        except Exception:  # noqa: BLE001
+            return True
     return False
 
 
